@@ -439,6 +439,9 @@ func (m *Machine) intrinsic(fn *ssa.Function, args []Value) (Value, bool) {
 		} else {
 			b = BigV{lin: iv.lin}
 		}
+		if m.bigShared {
+			b = BigV{cell: m.newObj(b, "bigcell")}
+		}
 		return Ptr{obj: m.newObj(b, "big.NewInt")}, true
 	}
 	name := fn.Name()
@@ -556,6 +559,19 @@ func (m *Machine) intrinsic(fn *ssa.Function, args []Value) (Value, bool) {
 		}
 		m.stats["reach:"+id]++
 		return nil, true
+	case name == "verifNative":
+		return VBool{m.cbool(false)}, true
+	case name == "verifOpaque":
+		iv := args[0].(IfaceV)
+		p := iv.v.(Ptr)
+		var et types.Type
+		if pt, ok := iv.typ.Underlying().(*types.Pointer); ok {
+			et = pt.Elem()
+		}
+		m.store(p, m.expandU(et, "arb_"+sanitize(args[1].(StrV).s)))
+		return nil, true
+	case name == "verifSame":
+		return VBool{m.sameValue(args[0], args[1], 0)}, true
 	case name == "effectsBegin":
 		m.effectsOn = true
 		m.markAllPreexisting()
